@@ -93,6 +93,12 @@ for i in range(NST):
     if i == cfg["k"]:
         if terminate(cfg["mode"]):
             break
+    if cfg.get("midfinal") is not None and i == cfg["midfinal"]:
+        rt.final()                      # the program runs the proving step itself, then goes on tracing
+        if cfg.get("midfinal_then") == "pub-only":
+            PubVal(10 + i)              # only constraint-free growth until the end
+            done += 1
+            break
     v = PubVal(10 + i)
     if cfg.get("nstmts") and i > 0 and i % (3 + (cfg.get("shape") or 0)) != 1:
         w = v * (v + w + (i % 5))       # long scripts: constraints of varying size (1-3 terms per side), several mixes
